@@ -34,6 +34,7 @@ type ShardReport struct {
 	Samples     []any               `json:"samples"`
 	Inexhaust   []string            `json:"inexhaustive"`
 	Broken      []string            `json:"broken"`
+	Suspect     string              `json:"suspect"` // set when the worker abandoned the process because of an unconfirmed stall
 }
 
 type wjob struct {
@@ -166,6 +167,28 @@ func (w *Worker) Broken(format string, a ...any) {
 	w.Rep.Broken = append(w.Rep.Broken, fmt.Sprintf(format, a...))
 }
 
+// Stalled is called when a controlled execution contains a goroutine that ran for the stall deadline without reaching
+// a scheduling point. Wall-clock observations are never believed at once (the machine may be overloaded): the first
+// time, the process is abandoned with the case marked as a suspect; the parent re-runs that case alone with a three
+// times longer deadline, and only a stall in that confirmation run is recorded as a violation.
+func (w *Worker) Stalled(key, what string, replay any) {
+	if os.Getenv("VERIF_STALL_CONFIRM") != "" {
+		w.Violation(key, what+" (confirmed in a second, isolated run with a three times longer deadline)", replay)
+	} else {
+		w.Rep.Suspect = key
+		w.Count("stall_suspects", 1)
+	}
+	w.Abandon()
+}
+
+// StallScale is the factor by which stall deadlines are stretched in a confirmation run.
+func StallScale() int {
+	if os.Getenv("VERIF_STALL_CONFIRM") != "" {
+		return 3
+	}
+	return 1
+}
+
 // Abandon writes the report gathered so far and leaves the process with status
 // 3: used when a runaway goroutine (a stalled controlled execution) makes the
 // process unusable. The parent merges the report and resumes the shard after
@@ -220,7 +243,7 @@ func WorkerMain() int {
 	}
 	// address-space cap: a runaway allocation must kill this worker, not the sandbox
 	var lim syscall.Rlimit
-	lim.Cur, lim.Max = 24<<30, 24<<30
+	lim.Cur, lim.Max = 10<<30, 10<<30
 	syscall.Setrlimit(syscall.RLIMIT_AS, &lim)
 	w := &Worker{Check: j.Check, Name: j.Worker, Tier: j.Tier, Seed: j.Seed, Shard: j.Shard, NShards: j.NShards, From: j.From, Only: j.Only, Args: j.Args, job: j}
 	if j.Progress != "" {
@@ -473,6 +496,18 @@ func (c *Ctx) RunPool(spec PoolSpec) *PoolResult {
 					}
 					if rep != nil && kind == "abandoned" {
 						// the worker reported the case itself and left; carry on after it
+						if rep.Suspect != "" {
+							// unconfirmed stall: re-run the case alone, stretched deadline
+							j1 := j
+							j1.Only = int64(idx)
+							j1.From = 0
+							spec2 := spec
+							spec2.Env = append(append([]string{}, spec.Env...), "VERIF_STALL_CONFIRM=1")
+							if r1, _, _, _ := c.runOne(&spec2, j1, dir, fmt.Sprintf("s%d-confirm", shard)); r1 != nil {
+								r1.Evaluations, r1.Nontrivial, r1.States, r1.Transitions = 0, 0, 0, 0
+								merge(r1)
+							}
+						}
 						merge(rep)
 						from = idx + 1
 						if attempts > 500 {
